@@ -79,6 +79,7 @@ type LoopEntry struct {
 	dec     []*Term // decreases expressions' values at head
 	trace   *Term   // the ghost trace at the head, this iteration
 	ordinal int
+	cells   map[*Cell]Val // local variables at the head, this iteration
 }
 
 type State struct {
@@ -103,6 +104,7 @@ type State struct {
 	closures map[string]*Closure
 	nonnil   map[string]bool
 	once     map[string]bool
+	views    map[string]bool // sequence terms that are re-sliced views of a slice that is still reachable (A-seq side condition)
 	fullMod  map[string]bool // heap arrays written at objects that existed on entry
 	fresh    map[string]bool // refs allocated on this path
 }
@@ -142,6 +144,10 @@ func (st *State) Clone() *State {
 	n.fullMod = make(map[string]bool, len(st.fullMod))
 	for k, v := range st.fullMod {
 		n.fullMod[k] = v
+	}
+	n.views = make(map[string]bool, len(st.views))
+	for k, v := range st.views {
+		n.views[k] = v
 	}
 	n.fresh = make(map[string]bool, len(st.fresh))
 	for k, v := range st.fresh {
